@@ -72,7 +72,7 @@ def tx_desc(rng, version, in_kinds, ring, out_tagged, rct_type, n_proofs=1, extr
     ins = [txin(rng, k, ring) for k in in_kinds]
     outs = [txout(rng, t) for t in out_tagged]
     if extra_len is None:
-        extra_len = rng.choice([0, 1, 33, 44, 127, 128, 200])
+        extra_len = rng.choice([0, 1, 33, 44, 127, 128, 200, 255, 256, 16383, 16384] if rng.random() < 0.15 else [0, 1, 33, 44, 127, 128, 200])
     prefix = [str(version), str(interesting_u64(rng))] + lst(ins) + lst(outs) + [hexb(rng, extra_len)]
     if version == 1:
         rows = [lst([signature(rng) for _ in range(ring)]) for k in in_kinds if k == "key"]
@@ -164,6 +164,25 @@ def ring0_shapes():
     for kinds in (["key"], ["gen", "key"], ["key", "key", "key"]):
         out.append(dict(version=1, in_kinds=kinds, ring=0, out_tagged=[True], rct_type=0))
         out.append(dict(version=0, in_kinds=kinds, ring=0, out_tagged=[True], rct_type=5, n_proofs=1, lr=(0, 0)))
+    return out
+
+
+def big_count_shapes():
+    """counts at the two-byte / three-byte varint boundaries in every length position that can take them cheaply"""
+    out = []
+    for ring in (16383, 16384, 16385):
+        out.append(dict(version=2, in_kinds=["key"], ring=ring, out_tagged=[False], rct_type=5, n_proofs=1, lr=(0, 0)))
+        out.append(dict(version=1, in_kinds=["key"], ring=ring, out_tagged=[True], rct_type=0))
+    for n_out in (127, 128, 129, 255, 256, 257):
+        out.append(dict(version=2, in_kinds=["key"], ring=1, out_tagged=[i % 3 == 0 for i in range(n_out)], rct_type=6,
+                        n_proofs=1, lr=(0, 0)))
+        out.append(dict(version=1, in_kinds=["gen"], ring=1, out_tagged=[False] * n_out, rct_type=0))
+    for n_in in (127, 128, 129):
+        out.append(dict(version=2, in_kinds=["key"] * n_in, ring=1, out_tagged=[True], rct_type=5, n_proofs=1, lr=(0, 0)))
+        out.append(dict(version=2, in_kinds=["gen"] * n_in, ring=1, out_tagged=[True], rct_type=0))
+    for lr in ((127, 128), (128, 127), (16384, 1)):
+        out.append(dict(version=2, in_kinds=["key"], ring=1, out_tagged=[False], rct_type=4, n_proofs=2, lr=lr))
+        out.append(dict(version=2, in_kinds=["key"], ring=1, out_tagged=[False], rct_type=6, n_proofs=1, lr=lr))
     return out
 
 
